@@ -21,7 +21,7 @@ import (
 type wfailT struct {
 	WFail   bool   `json:"wfail"`
 	Fam     string `json:"fam"`
-	Burst   int    `json:"burst"`
+	Burst   int    `json:"nburst"`
 	FailTry int    `json:"fail_try"`
 	Cfg     int    `json:"cfg"`
 }
